@@ -571,8 +571,8 @@ theorem rb_ptr_insert_duplicate (st : Store) (a : Shape) (root : Nat) (b : Shape
 /-- NEW KEY, BLACK PARENT (the path of `insert` that needs no rebalancing): for a key the tree does not hold the descent ends
     at a record `p` of the tree with a `NULL` child pointer on the key's side; if `p` is black, `insert` returns the unchanged
     root, the store lays out the tree with the record hung there (`attachShape`), exactly the records `node` (red leaf whose
-    parent is `p`) and `p` (one new child pointer) were written. With a red `p` the function goes on into `rebalance`, whose
-    case analysis is proved on the inductive tree (`rb_insert`) and tied to the pointer code record by record. -/
+    parent is `p`) and `p` (one new child pointer) were written. With a red `p` the function goes on into `rebalance`: that path,
+    and the whole function, is `rb_ptr_insert_refines` below. -/
 theorem rb_ptr_insert_black_parent (st : Store) (a : Shape) (root : Nat) (b : Shape) (node : Nat) (nn : Node)
     (hrep : Repr st (.node a root b) (some root)) (hnd : (Shape.node a root b).ids.Nodup)
     (hnode : node ∉ (Shape.node a root b).ids) (hr : rd st node = some nn)
